@@ -36,6 +36,10 @@ def cases(tier, seed):
             tots = list(range(1, sum(nums) + 1))
             for i in range(0, len(tots), 4):
                 yield {"part": "mgs", "numbers": list(nums), "totals": tots[i:i + 4]}
+    # two 3-part partition constraints at once, parts NOT tied to the numbers: one number, total T, every unordered pair of 3-part
+    # partitions of T (the optimum grows with the number of constraints: the size search must not stop early)
+    for T in ((10, 12) if tier == "quick" else (9, 10, 11, 12, 13)):
+        yield {"part": "mgs", "numbers": [T // 2 + 1], "totals": [T], "two3": True}
     U, M = (3, 3) if q else (4, 4)
     for u in range(1, U + 1):
         univ = list(range(u))
@@ -127,6 +131,12 @@ def run(case):
                     if three and subsums:
                         pcs_list.append([three[0], [subsums[-1], total - subsums[-1]]])
                         pcs_list.append([[subsums[-1], total - subsums[-1]], three[0]])
+                if case.get("two3"):
+                    if m > 1:
+                        continue
+                    p3 = [list(x) for x in partitions(total, 3)]
+                    pcs_list = [None] + [[a, b] for a, b in itertools.combinations(p3, 2)] + [[b, a] for a, b in itertools.combinations(p3, 2)][::5]
+                    tags["two_three_part_constraints"] += len(pcs_list) - 1
                 configs = []
                 for wt in ("int", "float"):
                     for lb in sorted({1, min(2, k)}):
